@@ -93,6 +93,7 @@ Signature(q) ==
   [defs |-> [d \in DOMAIN DefsOf(q) |-> [fields |-> FieldSig(q, d), size |-> SizeOfDef(q, d), align |-> AlignOfDef(q, d)]],
    ids |-> MsgIds,
    constants |-> [K |-> q.k, K2 |-> K2(q), BIG |-> q.k * 1000 + 7],
+   ratios |-> [HALF |-> <<q.k, 2>>, INV |-> <<1, q.k>>, SPAN |-> <<q.k * 2 + 1, 2>>],     \* constant expressions with a division: numerator / denominator
    mids |-> [MYMOD |-> 12], hids |-> [MYHOST |-> 10],
    reserved |-> {1003, 1005, 1006, 1007}]
 
